@@ -109,9 +109,7 @@ func (w *world) startupScenario() error {
 			res.Nontrivial(canon)
 			if mode == "fail" && err == nil {
 				// the server came up although a clean-up step failed: the next clean start must finish the job
-				if e := w.p.quit(); e != nil {
-					res.Fail("close-failed | "+canon, e.Error(), nil)
-				}
+				w.cleanQuit(canon)
 				if err := w.restart(""); err != nil {
 					return err
 				}
@@ -151,9 +149,7 @@ func (w *world) redownloadScenario() error {
 	if err != nil {
 		return err
 	}
-	if err := w.p.quit(); err != nil {
-		res.Fail("close-failed | redownload", err.Error(), nil)
-	}
+	w.cleanQuit("redownload")
 	removed := 0
 	for _, m := range s.Ms {
 		if strings.HasPrefix(m.RID, "RD_") {
